@@ -27,7 +27,7 @@ def run(ctx):
         raise core.MachineryError("model insensitive: RunningLoopRaises does not violate NeverCrashes")
     behs = sc.tlc_schedules(ctx, "c14_sched", graphs, "K0", fails="any", simulate=3000 if ctx.thorough else 400, seed=ctx.seed + 3)
     behs = [b for b in behs if b["fails"]]
-    pick = behs if ctx.thorough and len(behs) < 600 else ctx.rng.sample(behs, min(len(behs), 600 if ctx.thorough else 36))
+    pick = behs if ctx.thorough and len(behs) < 600 else sc.pick_schedules(ctx, behs, 600 if ctx.thorough else 36)
     specs = sc.schedules_to_specs(pick, "cf")
     # late futures: when the first job to finish fails and another node fails too, let the first one's future
     # complete late (result on disk, future outstanding while the other completions are processed)
